@@ -265,7 +265,8 @@ def _locate_droplets_in_mask_cylindrical_single(
 
     # determine position from binary image and scale it to real space
     pos = ndimage.center_of_mass(mask, labels, index=indices)
-    pos = grid.transform(pos, "cell", "cartesian")
+    # cell centers are located at half-integer cell coordinates
+    pos = grid.transform(np.asarray(pos) + 0.5, "cell", "cartesian")
 
     # determine volume from binary image and scale it to real space
     vol_r, dz = grid.cell_volume_data
